@@ -140,6 +140,22 @@ func refParse(h string) refHeader {
 	return r
 }
 
+// owsRun is the length of the longest run of SP / HTAB in s.
+func owsRun(s string) int {
+	best, cur := 0, 0
+	for i := 0; i < len(s); i++ {
+		if isOWS(s[i]) {
+			cur++
+			if cur > best {
+				best = cur
+			}
+		} else {
+			cur = 0
+		}
+	}
+	return best
+}
+
 // collapse merges runs of U+FFFD into one.
 func collapse(s string) string {
 	const rep = "\uFFFD"
@@ -271,6 +287,29 @@ func checkHeader(h string, prior int) ([]vk.Violation, vk.Info) {
 		}
 	}
 	info.ClassIf(badEsc, "escapes_not_utf8")
+	longOWS, longInnerOWS, otherOctet, lowerHexEsc := false, false, false, false
+	for _, seg := range ref.segs {
+		longOWS = longOWS || owsRun(seg) >= 64
+		longInnerOWS = longInnerOWS || owsRun(trimOWS(seg)) >= 64
+	}
+	for _, m := range ref.members {
+		raws := []string{m.raw}
+		for _, p := range m.props {
+			raws = append(raws, p.raw)
+		}
+		for _, raw := range raws {
+			for i := 0; i < len(raw); i++ {
+				otherOctet = otherOctet || (raw[i] != 'x' && raw[i] != '%' && !isHex(raw[i]) && strings.IndexByte(safeValueChars, raw[i]) < 0)
+				lowerHexEsc = lowerHexEsc || (raw[i] == '%' && i+2 < len(raw) && (raw[i+1] >= 'a' || raw[i+2] >= 'a'))
+			}
+		}
+	}
+	info.ClassIf(longOWS, "ows_run_of_64_or_more")
+	info.ClassIf(longInnerOWS, "ows_run_of_64_or_more_inside_a_list_member")
+	info.ClassIf(longInnerOWS && ref.wellFormed && ref.maxTrimmed > limMemberBytes, "member_over_4096_by_inner_ows")
+	info.ClassIf(longInnerOWS && mustAccept, "must_accept_with_long_inner_ows")
+	info.ClassIf(otherOctet, "value_octet_outside_short_alphabet")
+	info.ClassIf(lowerHexEsc, "lower_case_hex_escape")
 	info.ClassIf(!utf8.ValidString(h), "header_not_utf8")
 
 	b, err := baggage.Parse(h)
@@ -472,7 +511,19 @@ func headerLen(segs []Seg) int {
 	return n
 }
 
+// safeValueChars: a punctuation-heavy choice of baggage-octets;
+// allValueChars: every baggage-octet but the percent sign.
 const safeValueChars = "abzAZ09_-*/@.+~!#$&'():<=>?[]^`{|}"
+
+var allValueChars = func() string {
+	var b []byte
+	for c := 0x21; c < 0x7f; c++ {
+		if isBaggageOctet(byte(c)) && c != '%' {
+			b = append(b, byte(c))
+		}
+	}
+	return string(b)
+}()
 
 var (
 	validEscapes   = []string{"%2C", "%3B", "%3D", "%25", "%20", "%09", "%22", "%5C", "%C3%A9", "%c3%a9", "%E4%B8%96", "%F0%9F%98%80", "%00", "%7F", "%EF%BF%BD", "%F4%8F%BF%BF", "%2c", "%41"}
@@ -492,7 +543,14 @@ func genRawValue(level, maxAtoms int) *rapid.Generator[string] {
 			k := rapid.IntRange(0, 9).Draw(t, "atom")
 			switch {
 			case k <= 3 || (k >= 8 && level < 3) || (k == 7 && level < 2) || (k == 6 && level < 1):
-				sb.WriteByte(safeValueChars[rapid.IntRange(0, len(safeValueChars)-1).Draw(t, "c")])
+				if rapid.Bool().Draw(t, "anyoctet") {
+					sb.WriteByte(allValueChars[rapid.IntRange(0, len(allValueChars)-1).Draw(t, "c")])
+				} else {
+					sb.WriteByte(safeValueChars[rapid.IntRange(0, len(safeValueChars)-1).Draw(t, "c")])
+				}
+			case k == 5 && rapid.Bool().Draw(t, "enctext"):
+				// some encoding (minimal, full or in between, either hex case) of arbitrary text
+				sb.WriteString(genEnc().Draw(t, "enc").encode(genValue(3).Draw(t, "text")))
 			case k <= 5:
 				sb.WriteString(rapid.SampledFrom(validEscapes).Draw(t, "esc"))
 			case k == 6:
@@ -582,10 +640,10 @@ var growPads = []string{"%FF", "%C3%28", "%E2%82", "%80", "%ff"}
 
 func genB(t *rapid.T) CaseB {
 	c := CaseB{Prior: rapid.SampledFrom([]int{0, 0, 1, 2}).Draw(t, "prior")}
-	mode := rapid.SampledFrom([]string{"small", "small", "small", "small", "dup", "count", "member", "total", "grow", "hostile", "hostile", "near", "seed"}).Draw(t, "mode")
+	mode := rapid.SampledFrom([]string{"small", "small", "small", "small", "dup", "count", "member", "total", "grow", "hostile", "hostile", "near", "seed", "owspad"}).Draw(t, "mode")
 	c.Mode = mode
 	level := rapid.SampledFrom([]int{0, 1, 1, 2, 3}).Draw(t, "level")
-	if mode == "count" || mode == "member" || mode == "total" || mode == "grow" {
+	if mode == "count" || mode == "member" || mode == "total" || mode == "grow" || mode == "owspad" {
 		level = rapid.SampledFrom([]int{0, 0, 1}).Draw(t, "blevel")
 	}
 	near := func(center int, label string) int {
@@ -749,6 +807,29 @@ func genB(t *rapid.T) CaseB {
 		}
 	case "total":
 		totalTo(near(limTotalBytes, "tsize"), hdrPads)
+	case "owspad":
+		// one list-member with a long run of optional whitespace in one of the
+		// places the grammar allows it, sized to the per-member or total limit
+		pieces := []string{genHdrKey(0).Draw(t, "okey"), "=", genRawValue(level, 4).Draw(t, "oval")}
+		for i, np := 0, rapid.IntRange(0, 2).Draw(t, "onp"); i < np; i++ {
+			pieces = append(pieces, ";", genHdrKey(0).Draw(t, "opk"))
+			if rapid.Bool().Draw(t, "opv") {
+				pieces = append(pieces, "=", genRawValue(level, 3).Draw(t, "opval"))
+			}
+		}
+		slot := rapid.IntRange(0, len(pieces)).Draw(t, "slot")
+		s := Seg{Head: vk.Str(strings.Join(pieces[:slot], "")), Tail: vk.Str(strings.Join(pieces[slot:], "")), Pad: vk.Str(rapid.SampledFrom([]string{" ", " ", "\t"}).Draw(t, "opad"))}
+		if rapid.IntRange(0, 2).Draw(t, "ototal") == 0 {
+			// a moderate run; the rest of the header brings the total to the limit
+			s.N = rapid.IntRange(1, 3000).Draw(t, "on")
+			at := rapid.IntRange(0, len(c.Segs)).Draw(t, "oat")
+			c.Segs = append(c.Segs[:at], append([]Seg{s}, c.Segs[at:]...)...)
+			totalTo(near(limTotalBytes, "tsize"), hdrPads)
+		} else {
+			s.N = near(limMemberBytes, "msize") - s.size()
+			at := rapid.IntRange(0, len(c.Segs)).Draw(t, "oat")
+			c.Segs = append(c.Segs[:at], append([]Seg{s}, c.Segs[at:]...)...)
+		}
 	case "grow":
 		// escapes that decode to invalid UTF-8: 3 bytes in, 9 bytes out
 		p := rapid.SampledFrom(growPads).Draw(t, "gpad")
@@ -773,7 +854,7 @@ func runB(c CaseB) ([]vk.Violation, vk.Info) {
 func TestHeaderParse(t *testing.T) {
 	vk.Run(t, vk.Spec[CaseB]{
 		Property: "C11", Check: "header_parse",
-		Rule: "header strings: list-members generated from the W3C grammar (token keys, baggage-octet values, 0..3 properties, optional whitespace in every allowed place) with percent escapes that are valid, decode to invalid UTF-8 (%FF, %C3%28, truncated sequences) or are malformed (%zz, lone %), " +
+		Rule: "header strings: list-members generated from the W3C grammar (token keys, values over every baggage-octet, 0..3 properties, optional whitespace in every allowed place, also one run of it that brings a list-member to 4096±2 bytes or the header to 8192±2) with percent escapes that are valid (fixed ones and minimal / full / partial encodings of arbitrary text in either hex case), decode to invalid UTF-8 (%FF, %C3%28, truncated sequences) or are malformed (%zz, lone %), " +
 			"illegal bytes, empty / keyless properties, repeated keys, 178..182 list-members, list-members of 4096±2 bytes, headers of 8192±2 bytes, one-byte edits of valid headers and random hostile strings; " +
 			"non-trivial = the header has at least two list-members or a percent sign; distinct = distinct case encodings",
 		Quick: 40000, Thorough: 400000,
